@@ -1,3 +1,4 @@
+import math
 import time
 import random
 import re
@@ -139,6 +140,8 @@ class GenericBackendSystem(ListeningSystem):
         else:
             try:
                 timestamp = float(args[0]) / ACS_TO_UNIX_TIME
+                if not math.isfinite(timestamp):
+                    raise ValueError("timestamp is not a finite number")
                 self._start_at(timestamp)
             except ValueError as ex:
                 raise BackendError(f"wrong timestamp '{args[0]}'") from ex
@@ -149,6 +152,8 @@ class GenericBackendSystem(ListeningSystem):
         else:
             try:
                 timestamp = float(args[0]) / ACS_TO_UNIX_TIME
+                if not math.isfinite(timestamp):
+                    raise ValueError("timestamp is not a finite number")
                 self._stop_at(timestamp)
             except ValueError as ex:
                 raise BackendError(f"wrong timestamp '{args[0]}'") from ex
